@@ -1,1 +1,10 @@
 name = "vpk"
+
+
+# two functions of the package module itself whose names sort before and after "sub" (C19 colookup cases)
+def alpha():
+    return "pa"
+
+
+def zeta():
+    return "pz"
